@@ -481,9 +481,10 @@ fn block(z: &RefZone, time_size: usize, indicators: bool, out: &mut Vec<u8>, ver
     out.extend(&chars);
     // no leap records
     if indicators {
-        // standard/wall then UT/local: (std=1, ut=1) on type 0, wall/local elsewhere — never the forbidden (0,1)
+        // standard/wall then UT/local. The two arrays differ on purpose: pairs (1,1), (1,0), (0,0)... — all valid,
+        // never the forbidden (std=0, ut=1); a reader that swaps the arrays sees (0,1) and rejects
         for i in 0..z.types.len() {
-            out.push((i == 0) as u8);
+            out.push((i <= 1) as u8);
         }
         for i in 0..z.types.len() {
             out.push((i == 0) as u8);
